@@ -260,3 +260,13 @@ def r5(ctx: Ctx) -> None:
 def r6(ctx: Ctx) -> None:
     from .points import point_arithmetic
     point_arithmetic(ctx, ops={"__neg__", "__add__", "__sub__", "__mul__", "__truediv__", "norm"})
+
+
+@rule("C13", "R7.cost-terms-recomputed", "SHARED(C05)",
+      "the wire-length term of the cost is computed from the current centres every time it is read: Netlist.wire_length is the sum "
+      "over all nets and HyperEdge.wire_length the distance sum (the C05 definitions; a cached total would make every trial layout "
+      "report the wire length of the first one)", floor=2)
+def shared_wirelength(ctx: Ctx) -> None:
+    from . import C05 as _c05
+    from .common import support
+    support(ctx, [_c05.r2], {"Netlist.wire_length", "HyperEdge.wire_length"})
